@@ -150,6 +150,8 @@ type multiCIDRRangeAllocator struct {
 	lock *sync.Mutex
 	// cidrMap maps ClusterCIDR labels to internal ClusterCIDR objects.
 	cidrMap map[string][]*cidrset.ClusterCIDR
+	// serviceCIDRs are the service ranges filtered out of the cidrSets at start-up.
+	serviceCIDRs []*net.IPNet
 }
 
 // NewMultiCIDRRangeAllocator returns a CIDRAllocator to allocate CIDRs for node (one for each ip family).
@@ -252,12 +254,14 @@ func NewMultiCIDRRangeAllocator(
 	}
 
 	if allocatorParams.ServiceCIDR != nil {
+		ra.serviceCIDRs = append(ra.serviceCIDRs, allocatorParams.ServiceCIDR)
 		ra.filterOutServiceRange(logger, allocatorParams.ServiceCIDR)
 	} else {
 		logger.Info("No Service CIDR provided. Skipping filtering out service addresses")
 	}
 
 	if allocatorParams.SecondaryServiceCIDR != nil {
+		ra.serviceCIDRs = append(ra.serviceCIDRs, allocatorParams.SecondaryServiceCIDR)
 		ra.filterOutServiceRange(logger, allocatorParams.SecondaryServiceCIDR)
 	} else {
 		logger.Info("No Secondary Service CIDR provided. Skipping filtering out secondary service addresses")
@@ -760,6 +764,13 @@ func (r *multiCIDRRangeAllocator) ReleaseCIDR(logger klog.Logger, node *corev1.N
 			logger.Info("release CIDR for node", "CIDR", cidr, "node", klog.KObj(node))
 			if err := r.Release(logger, clusterCIDR, podCIDR); err != nil {
 				return fmt.Errorf("failed to release cidr %q from clusterCIDR %q for node %q: %w", cidr, clusterCIDR.Name, node.Name, err)
+			}
+
+			// The released pod CIDR may have covered part of a service range: that part stays unassignable.
+			for _, serviceCIDR := range r.serviceCIDRs {
+				if err := r.occupyServiceCIDR(clusterCIDR, serviceCIDR); err != nil {
+					logger.Error(err, "Unable to occupy service CIDR")
+				}
 			}
 		}
 
